@@ -17,6 +17,7 @@ use oxmpl::base::validity::StateValidityChecker;
 use oxmpl::geometric::{RRTConnect, RRTStar, PRM, RRT};
 use rand::Rng;
 
+static PANICS: std::sync::atomic::AtomicUsize = std::sync::atomic::AtomicUsize::new(0);
 type S = RealVectorState;
 type SP = RealVectorStateSpace;
 
@@ -64,10 +65,11 @@ fn space() -> Arc<SP> {
     Arc::new(RealVectorStateSpace::new(2, Some(vec![(0.0, 10.0), (0.0, 10.0)])).unwrap())
 }
 fn world(kind: u64) -> Arc<World> {
-    let boxes = match kind % 4 {
+    let boxes = match kind % 5 {
         0 => vec![(4.85, 5.15, 2.0, 10.0)],                       // thin wall (0.3), passage at the bottom
         1 => vec![(4.5, 5.5, 0.0, 8.0)],                          // thick wall, passage at the top
         2 => vec![(3.0, 3.3, 0.0, 7.0), (6.0, 6.3, 3.0, 10.0)],   // two thin walls
+        4 => vec![(6.5, 7.5, 0.0, 8.0)],                          // wall nearer to the goal side
         _ => vec![],
     };
     Arc::new(World { boxes, log: Mutex::new(vec![]) })
@@ -106,12 +108,19 @@ impl Inst {
             Inst::Prm(p) => { p.setup(pd, vc); let _ = p.construct_roadmap(); }
         }
     }
-    fn solve(&mut self, t: Duration) -> Result<Path<S>, PlanningError> {
+    fn solve_raw(&mut self, t: Duration) -> Result<Path<S>, PlanningError> {
         match self {
             Inst::Rrt(p) => p.solve(t),
             Inst::Connect(p) => p.solve(t),
             Inst::Star(p) => p.solve(t),
             Inst::Prm(p) => p.solve(t),
+        }
+    }
+    /// a panic inside a call on well-formed inputs is itself a violation (C08); it is recorded and turned into an error
+    fn solve(&mut self, t: Duration) -> Result<Path<S>, PlanningError> {
+        match std::panic::catch_unwind(std::panic::AssertUnwindSafe(|| self.solve_raw(t))) {
+            Ok(r) => r,
+            Err(_) => { PANICS.fetch_add(1, std::sync::atomic::Ordering::SeqCst); Err(PlanningError::NoSolutionFound) }
         }
     }
     fn limit(p: Pl, step: f64, radius: f64) -> f64 {
@@ -187,7 +196,7 @@ fn fam_histories(o: &mut Out, props: &str, seed0: u64, deadline: Instant) {
     let sp = space();
     let mut k = 0u64;
     'outer: for pl in planners() {
-        for variant in 0..4u64 {
+        for variant in 0..6u64 {
             for ds in 0..3u64 {
                 if Instant::now() > deadline { break 'outer; }
                 let seed = seed0.wrapping_mul(1000) + 500 + k; k += 1;
@@ -211,6 +220,13 @@ fn fam_histories(o: &mut Out, props: &str, seed0: u64, deadline: Instant) {
                     2 => { // solve twice on the same problem
                         inst.setup(p2.clone(), w_wall.clone()); let _ = inst.solve(Duration::from_millis(300));
                         if let Ok(path) = inst.solve(Duration::from_millis(500)) { check_path(o, props, &scen, seed, &sp, &w_wall, &p2, &path, Inst::limit(pl, step, radius)); }
+                    }
+                    4 | 5 => { // solve with budgets that run out at various points, then retry with a real budget
+                        inst.setup(p2.clone(), w_wall.clone());
+                        for us in [0u64, 200, 700, 1500, 3000, 6000, 12000] { let _ = inst.solve(Duration::from_micros(us * (1 + variant - 4) + ds * 137)); }
+                        if let Ok(path) = inst.solve(Duration::from_millis(600)) { check_path(o, props, &scen, seed, &sp, &w_wall, &p2, &path, Inst::limit(pl, step, radius)); }
+                        // and once more after a success
+                        if let Ok(path) = inst.solve(Duration::from_millis(600)) { check_path(o, props, &scen, seed, &sp, &w_wall, &p2, &path, Inst::limit(pl, step, radius)); }
                     }
                     _ => { // PRM: reuse the roadmap for a new start / goal
                         if let Inst::Prm(p) = &mut inst {
@@ -259,6 +275,190 @@ fn fam_determinism(o: &mut Out, seed0: u64, deadline: Instant) {
     }
 }
 
+/// the genuine defects found on the unchanged tree (DESIGN.md section 7): each fires on the original commit and is
+/// silent after its `fix:` commit
+fn fam_defects(o: &mut Out) {
+    use oxmpl::base::space::SO2StateSpace;
+    use oxmpl::base::state::SO2State;
+    let sp = space();
+    // D1: a start inside an obstacle must be reported as InvalidStartState (RRT, RRT*, RRT-Connect)
+    for pl in [Pl::Rrt, Pl::Star, Pl::Connect] {
+        let w = Arc::new(World { boxes: vec![(0.5, 1.5, 0.5, 1.5)], log: Mutex::new(vec![]) });
+        let pdx = pd(&sp, (1.0, 1.0), (8.0, 8.0), 0.5);
+        let mut inst = Inst::new(pl, 0.5, 1.0, 0.1, 3);
+        inst.setup(pdx.clone(), w.clone());
+        match inst.solve(Duration::from_millis(800)) {
+            Err(PlanningError::InvalidStartState) => {}
+            Ok(p) => o.report("D1 invalid start", 3, format!("{:?}: returned a path of {} states whose first state {:?} the checker rejects", pl, p.0.len(), p.0[0].values)),
+            Err(e) => o.report("D1 invalid start", 3, format!("{:?}: invalid start reported as {:?}, not InvalidStartState", pl, e)),
+        }
+    }
+    // D2: the end state of a subdivided motion is itself submitted to the checker (1-D knife edge: a + (b - a) * 1.0 != b)
+    {
+        let sp1 = Arc::new(RealVectorStateSpace::new(1, Some(vec![(-10.0, 10.0)])).unwrap());
+        let (a, b) = (-5.206970073490482f64, 6.30772271216253f64);
+        struct RejectB(f64);
+        impl StateValidityChecker<S> for RejectB { fn is_valid(&self, s: &S) -> bool { s.values[0].to_bits() != self.0.to_bits() } }
+        struct PointGoal(f64);
+        impl Goal<S> for PointGoal { fn is_satisfied(&self, s: &S) -> bool { s.values[0].to_bits() == self.0.to_bits() } }
+        impl GoalRegion<S> for PointGoal { fn distance_goal(&self, s: &S) -> f64 { (s.values[0] - self.0).abs() } }
+        impl GoalSampleableRegion<S> for PointGoal { fn sample_goal(&self, _r: &mut impl Rng) -> Result<S, StateSamplingError> { Ok(RealVectorState::new(vec![self.0])) } }
+        let pdx = Arc::new(ProblemDefinition { space: sp1.clone(), start_states: vec![RealVectorState::new(vec![a])], goal: Arc::new(PointGoal(b)) });
+        let mut pl: RRT<S, SP, PointGoal> = RRT::new(100.0, 1.0, &PlannerConfig { seed: Some(1) });
+        pl.setup(pdx, Arc::new(RejectB(b)));
+        if let Ok(p) = pl.solve(Duration::from_millis(300)) { o.report("D2 end state of a motion", 1, format!("RRT returned a path ending in {:?}, a state the checker rejects (only interpolate(a,b,1.0) was validated)", p.0[p.0.len() - 1].values)); }
+    }
+    // D6 / D7: a seeded planner stays reproducible over several calls (generator stored back; goal root from the planner's generator)
+    fam_determinism(o, 0, Instant::now() + Duration::from_secs(20));
+    // D9 / D14: SO(2) enforce_bounds canonicalises, and the check accepts what enforce produced
+    {
+        let s2 = SO2StateSpace::new(None).unwrap();
+        let mut st = SO2State { value: 7.0 };
+        s2.enforce_bounds(&mut st);
+        if !(st.value >= -std::f64::consts::PI && st.value <= std::f64::consts::PI) { o.report("D9 so2 enforce", 0, format!("enforce_bounds leaves the non-canonical angle {}", st.value)); }
+        let s3 = SO2StateSpace::new(Some((-1.0, 0.1))).unwrap();
+        let mut st = SO2State { value: 0.2 };
+        s3.enforce_bounds(&mut st);
+        if !s3.satisfies_bounds(&st) { o.report("D14 so2 bound itself", 0, format!("after enforce_bounds the state {:?} fails satisfies_bounds", st.value)); }
+    }
+    // D11 / D12: constructors reject NaN bounds and intervals outside [-PI, PI]
+    if SO2StateSpace::new(Some((4.0, 5.0))).is_ok() { o.report("D11 so2 ctor", 0, "SO2StateSpace::new(Some((4.0, 5.0))) is Ok (stored interval is empty)".into()); }
+    if SO2StateSpace::new(Some((f64::INFINITY, f64::NAN))).is_ok() { o.report("D11 so2 ctor", 0, "SO2StateSpace::new(Some((inf, NaN))) is Ok".into()); }
+    if RealVectorStateSpace::new(1, Some(vec![(f64::NAN, 1.0)])).is_ok() { o.report("D12 rv ctor", 0, "RealVectorStateSpace::new(1, Some(vec![(NaN, 1.0)])) is Ok".into()); }
+    // D10: sampling a box whose width overflows reports an error instead of panicking
+    {
+        let big = RealVectorStateSpace::new(1, Some(vec![(-1e308, 1e308)])).unwrap();
+        let r = std::panic::catch_unwind(|| { let mut rng = rand::rng(); big.sample_uniform(&mut rng).is_err() });
+        if r.is_err() { o.report("D10 rv sample", 0, "sample_uniform panics for bounds (-1e308, 1e308)".into()); }
+    }
+}
+
+/// C16 goal bias: bias 0 never draws from the goal sampler, bias 1 never from the space sampler (counting wrappers)
+struct CountGoal { inner: DiscGoal, n: std::sync::atomic::AtomicUsize }
+impl Goal<S> for CountGoal { fn is_satisfied(&self, s: &S) -> bool { self.inner.is_satisfied(s) } }
+impl GoalRegion<S> for CountGoal { fn distance_goal(&self, s: &S) -> f64 { self.inner.distance_goal(s) } }
+impl GoalSampleableRegion<S> for CountGoal {
+    fn sample_goal(&self, rng: &mut impl Rng) -> Result<S, StateSamplingError> { self.n.fetch_add(1, std::sync::atomic::Ordering::SeqCst); self.inner.sample_goal(rng) }
+}
+struct CountSpace { inner: SP, n: std::sync::atomic::AtomicUsize }
+impl StateSpace for CountSpace {
+    type StateType = S;
+    fn distance(&self, a: &S, b: &S) -> f64 { self.inner.distance(a, b) }
+    fn interpolate(&self, a: &S, b: &S, t: f64, o: &mut S) { self.inner.interpolate(a, b, t, o) }
+    fn enforce_bounds(&self, s: &mut S) { self.inner.enforce_bounds(s) }
+    fn satisfies_bounds(&self, s: &S) -> bool { self.inner.satisfies_bounds(s) }
+    fn sample_uniform(&self, rng: &mut impl Rng) -> Result<S, StateSamplingError> { self.n.fetch_add(1, std::sync::atomic::Ordering::SeqCst); self.inner.sample_uniform(rng) }
+    fn get_longest_valid_segment_length(&self) -> f64 { self.inner.get_longest_valid_segment_length() }
+}
+fn fam_bias(o: &mut Out, seed0: u64) {
+    use std::sync::atomic::Ordering::SeqCst;
+    for which in 0..3u8 {
+        for bias in [0.0f64, 1.0] {
+            for wk in [1u64, 3, 4] {
+                let sp = Arc::new(CountSpace { inner: RealVectorStateSpace::new(2, Some(vec![(0.0, 10.0), (0.0, 10.0)])).unwrap(), n: Default::default() });
+                let goal = Arc::new(CountGoal { inner: DiscGoal { c: (9.0, 9.0), r: 0.4 }, n: Default::default() });
+                let pdx = Arc::new(ProblemDefinition { space: sp.clone(), start_states: vec![RealVectorState::new(vec![1.0, 1.0])], goal: goal.clone() });
+                let vc: Arc<dyn StateValidityChecker<S>> = world(wk);
+                let cfg = PlannerConfig { seed: Some(seed0 + 5) };
+                let name;
+                let setup_goal_calls;
+                match which {
+                    0 => { name = "Rrt"; let mut p: RRT<S, CountSpace, CountGoal> = RRT::new(0.6, bias, &cfg); p.setup(pdx.clone(), vc); setup_goal_calls = goal.n.load(SeqCst); let _ = p.solve(Duration::from_millis(150)); }
+                    1 => { name = "Star"; let mut p: RRTStar<S, CountSpace, CountGoal> = RRTStar::new(0.6, bias, 1.0, &cfg); p.setup(pdx.clone(), vc); setup_goal_calls = goal.n.load(SeqCst); let _ = p.solve(Duration::from_millis(150)); }
+                    _ => { name = "Connect"; let mut p: RRTConnect<S, CountSpace, CountGoal> = RRTConnect::new(0.6, bias, &cfg); p.setup(pdx.clone(), vc); setup_goal_calls = goal.n.load(SeqCst); let _ = p.solve(Duration::from_millis(150)); }
+                }
+                let (g, u) = (goal.n.load(SeqCst) - setup_goal_calls, sp.n.load(SeqCst));
+                if bias == 0.0 && g > 0 { o.report(&format!("goal bias 0 {} world{}", name, wk), seed0 + 5, format!("the goal sampler was called {} times during solve with goal_bias = 0", g)); }
+                if bias == 1.0 && u > 0 { o.report(&format!("goal bias 1 {} world{}", name, wk), seed0 + 5, format!("the space sampler was called {} times with goal_bias = 1", u)); }
+            }
+        }
+    }
+}
+
+/// C18: PRM against a reference roadmap.  The space replays a fixed sample list (then an invalid sentinel), the world is
+/// obstacle-free, so the reference graph (link iff dist < radius) and a reference BFS give the exact expected outcome.
+struct ReplaySpace { inner: SP, list: Vec<(f64, f64)>, next: std::sync::atomic::AtomicUsize }
+impl StateSpace for ReplaySpace {
+    type StateType = S;
+    fn distance(&self, a: &S, b: &S) -> f64 { self.inner.distance(a, b) }
+    fn interpolate(&self, a: &S, b: &S, t: f64, o: &mut S) { self.inner.interpolate(a, b, t, o) }
+    fn enforce_bounds(&self, s: &mut S) { self.inner.enforce_bounds(s) }
+    fn satisfies_bounds(&self, s: &S) -> bool { self.inner.satisfies_bounds(s) }
+    fn sample_uniform(&self, _rng: &mut impl Rng) -> Result<S, StateSamplingError> {
+        let k = self.next.fetch_add(1, std::sync::atomic::Ordering::SeqCst);
+        let (x, y) = if k < self.list.len() { self.list[k] } else { (-5.0, -5.0) };
+        Ok(RealVectorState::new(vec![x, y]))
+    }
+    fn get_longest_valid_segment_length(&self) -> f64 { self.inner.get_longest_valid_segment_length() }
+}
+struct OnlyInside;
+impl StateValidityChecker<S> for OnlyInside { fn is_valid(&self, s: &S) -> bool { s.values[0] >= 0.0 && s.values[1] >= 0.0 } }
+fn fam_prm_reference(o: &mut Out, seed0: u64) {
+    let radius = 1.0;
+    for variant in 0..6u64 {
+        // grid samples: neighbours are EXACTLY one radius apart, diagonals farther; a few off-grid points create links
+        let mut list = vec![];
+        for i in 0..5 { for j in 0..4 { if (i + j + variant) % 7 != 0 { list.push((1.0 + i as f64, 1.0 + j as f64)); } } }
+        for k in 0..(3 + variant) { list.push((1.5 + k as f64 * 0.9, 1.5 + ((k * 7 + variant) % 4) as f64 * 0.5)); }
+        let sp = Arc::new(ReplaySpace { inner: RealVectorStateSpace::new(2, Some(vec![(-10.0, 10.0), (-10.0, 10.0)])).unwrap(), list: list.clone(), next: Default::default() });
+        let queries = [((1.2, 1.1), (1.5, 1.5), 0.3), ((1.1, 1.2), (4.5, 3.0), 0.6), ((3.0, 3.6), (1.5, 1.5), 0.2), ((8.0, 8.0), (1.5, 1.5), 0.3)];
+        let mut prm: PRM<S, ReplaySpace, DiscGoal> = PRM::new(0.05, radius, &PlannerConfig { seed: Some(seed0) });
+        let mk = |q: &((f64, f64), (f64, f64), f64)| Arc::new(ProblemDefinition { space: sp.clone(), start_states: vec![RealVectorState::new(vec![(q.0).0, (q.0).1])], goal: Arc::new(DiscGoal { c: q.1, r: q.2 }) });
+        let vc: Arc<dyn StateValidityChecker<S>> = Arc::new(OnlyInside);
+        prm.setup(mk(&queries[0]), vc);
+        let _ = prm.construct_roadmap();
+        let n = list.len();
+        if prm.get_roadmap().len() != n { o.report("prm reference", variant, format!("roadmap has {} milestones, {} valid samples were drawn", prm.get_roadmap().len(), n)); continue; }
+        let _ = prm.construct_roadmap();
+        if prm.get_roadmap().len() != n { o.report("prm reference", variant, "a repeated construct_roadmap changed the roadmap".into()); continue; }
+        let dist = |a: (f64, f64), b: (f64, f64)| sp.inner.distance(&RealVectorState::new(vec![a.0, a.1]), &RealVectorState::new(vec![b.0, b.1]));
+        for (qi, q) in queries.iter().enumerate() {
+            if qi > 0 { prm.set_problem_definition(mk(q)); }
+            // reference BFS
+            let goal = DiscGoal { c: q.1, r: q.2 };
+            let mut depth = vec![usize::MAX; n];
+            let mut queue = std::collections::VecDeque::new();
+            for i in 0..n { if dist(q.0, list[i]) < radius { depth[i] = 1; queue.push_back(i); } }
+            let mut best: Option<usize> = None;
+            while let Some(i) = queue.pop_front() {
+                if goal.is_satisfied(&RealVectorState::new(vec![list[i].0, list[i].1])) { best = Some(depth[i]); break; }
+                for j in 0..n { if depth[j] == usize::MAX && j != i && dist(list[i], list[j]) < radius { depth[j] = depth[i] + 1; queue.push_back(j); } }
+            }
+            let r = prm.solve(Duration::from_secs(5));
+            match (&r, best) {
+                (Ok(p), Some(h)) => { if p.0.len() != h + 1 { o.report("prm reference", variant, format!("query {}: path visits {} milestones, the fewest possible is {}", qi, p.0.len() - 1, h)); } }
+                (Ok(p), None) => o.report("prm reference", variant, format!("query {}: a path of {} states was returned although no goal milestone is reachable in the reference roadmap (links need dist < radius)", qi, p.0.len())),
+                (Err(e), Some(h)) => o.report("prm reference", variant, format!("query {}: {:?} although a goal milestone is reachable in {} hops", qi, e, h)),
+                (Err(_), None) => {}
+            }
+        }
+    }
+}
+
+/// C06: degenerate parameters must still honour the time limit (run on a thread with a watchdog)
+fn fam_deadline(o: &mut Out, seed0: u64) {
+    let sp = space();
+    for pl in planners() {
+        for (step, radius) in [(0.0, 0.5), (1e-5, 1e-5), (1e-3, 5.0), (50.0, 50.0)] {
+            let w = world(1);
+            let pdx = pd(&sp, (1.0, 1.0), (9.0, 9.0), 0.5);
+            let (tx, rx) = std::sync::mpsc::channel();
+            let seed = seed0;
+            std::thread::spawn(move || {
+                let mut inst = Inst::new(pl, step, radius, 0.1, seed);
+                inst.setup(pdx.clone(), w.clone());
+                let t0 = Instant::now();
+                let r = inst.solve(Duration::from_millis(60));
+                let _ = tx.send((t0.elapsed(), r.is_ok()));
+            });
+            match rx.recv_timeout(Duration::from_secs(8)) {
+                Ok((el, _)) => { if el > Duration::from_secs(4) { o.report(&format!("deadline {:?} step{} radius{}", pl, step, radius), seed, format!("solve(60 ms) returned after {:?}", el)); } }
+                Err(_) => o.report(&format!("deadline {:?} step{} radius{}", pl, step, radius), seed, "solve(60 ms) had not returned after 8 s".into()),
+            }
+        }
+    }
+}
+
 fn main() {
     let args: Vec<String> = std::env::args().collect();
     let prop = args.get(1).cloned().unwrap_or_else(|| "all".into());
@@ -272,9 +472,15 @@ fn main() {
         "C01" | "C02" | "C03" | "C04" | "C05" | "C06" | "C15" | "C18" | "C16" | "C17" | "C08" => {
             let half = Instant::now() + Duration::from_secs_f64(budget / 2.0);
             let p = if prop == "C18" || prop == "C16" || prop == "C17" || prop == "C08" { "all".to_string() } else { prop.clone() };
+            if prop == "C06" { fam_deadline(&mut o, seed); }
+            if prop == "C16" { fam_bias(&mut o, seed); }
+            if prop == "C18" { fam_prm_reference(&mut o, seed); }
             fam_histories(&mut o, &p, seed, half);
             fam_paths(&mut o, &p, seed, deadline);
+            let n = PANICS.load(std::sync::atomic::Ordering::SeqCst);
+            if n > 0 && (prop == "C08" || prop == "C15" || prop == "C02") { o.report("panic", seed, format!("{} planner call(s) on well-formed inputs panicked", n)); }
         }
+        "defects" => fam_defects(&mut o),
         "so2_bound_self" => {
             use oxmpl::base::space::SO2StateSpace;
             use oxmpl::base::state::SO2State;
